@@ -1,7 +1,9 @@
 use crate::engine::PropDyn;
 
 pub mod c01;
+pub mod c11;
+pub mod c12;
 
 pub fn all() -> Vec<Box<dyn PropDyn>> {
-    vec![Box::new(c01::prop())]
+    vec![Box::new(c01::prop()), Box::new(c11::prop()), Box::new(c12::prop())]
 }
